@@ -101,27 +101,27 @@ Proof.
 Qed.
 
 (* statements on physical expressions *)
-Theorem pand_kleene t ctx args vs :
-  pevals ctx args = Ok vs -> Forall (fun v => is_tv v = true) vs ->
-  peval ctx (PAnd t args) = Ok (tv_val (kleene_and (map to_tv vs))).
+Theorem pand_kleene orc t ctx args vs :
+  pevals orc ctx args = Ok vs -> Forall (fun v => is_tv v = true) vs ->
+  peval orc ctx (PAnd t args) = Ok (tv_val (kleene_and (map to_tv vs))).
 Proof. intros. unfold peval. simpl materialize. apply and_kleene; assumption. Qed.
 
-Theorem por_kleene t ctx args vs :
-  pevals ctx args = Ok vs -> Forall (fun v => is_tv v = true) vs ->
-  peval ctx (POr t args) = Ok (tv_val (kleene_or (map to_tv vs))).
+Theorem por_kleene orc t ctx args vs :
+  pevals orc ctx args = Ok vs -> Forall (fun v => is_tv v = true) vs ->
+  peval orc ctx (POr t args) = Ok (tv_val (kleene_or (map to_tv vs))).
 Proof. intros. unfold peval. simpl materialize. apply or_kleene; assumption. Qed.
 
-Theorem pand_short t ctx pre x post vs :
-  pevals ctx pre = Ok vs -> Forall (fun v => v = VNull \/ v = VBool true) vs -> peval ctx x = Ok (VBool false) ->
-  peval ctx (PAnd t (pre ++ x :: post)) = Ok (VBool false).
+Theorem pand_short orc t ctx pre x post vs :
+  pevals orc ctx pre = Ok vs -> Forall (fun v => v = VNull \/ v = VBool true) vs -> peval orc ctx x = Ok (VBool false) ->
+  peval orc ctx (PAnd t (pre ++ x :: post)) = Ok (VBool false).
 Proof.
   intros. unfold peval. simpl materialize. rewrite map_app. simpl map. simpl eval.
   eapply and_loop_short; eauto.
 Qed.
 
-Theorem por_short t ctx pre x post vs :
-  pevals ctx pre = Ok vs -> Forall (fun v => v = VNull \/ v = VBool false) vs -> peval ctx x = Ok (VBool true) ->
-  peval ctx (POr t (pre ++ x :: post)) = Ok (VBool true).
+Theorem por_short orc t ctx pre x post vs :
+  pevals orc ctx pre = Ok vs -> Forall (fun v => v = VNull \/ v = VBool false) vs -> peval orc ctx x = Ok (VBool true) ->
+  peval orc ctx (POr t (pre ++ x :: post)) = Ok (VBool true).
 Proof.
   intros. unfold peval. simpl materialize. rewrite map_app. simpl map. simpl eval.
   eapply or_loop_short; eauto.
@@ -167,16 +167,16 @@ Proof.
     + rewrite Happ, Hlen. apply IH; [lia|assumption].
 Qed.
 
-Lemma pevals_types_length ctx args vs : pevals ctx args = Ok vs -> length vs = length (map ptype args).
+Lemma pevals_types_length orc ctx args vs : pevals orc ctx args = Ok vs -> length vs = length (map ptype args).
 Proof. intros H. apply evals_map_ok in H. rewrite !map_length in *. assumption. Qed.
 
 (* NULL propagation: holds for every descriptor whose Strict flag is set, whatever its body is *)
-Theorem strict_null t d ctx args vs :
+Theorem strict_null orc t d ctx args vs :
   fd_strict d = true ->
-  pevals ctx args = Ok vs ->
+  pevals orc ctx args = Ok vs ->
   Forall2 (fun v a => has_type v (ptype a) = true) vs args ->
   In VNull vs ->
-  peval ctx (PCall t d args) = Ok VNull.
+  peval orc ctx (PCall t d args) = Ok VNull.
 Proof.
   intros Hs He F Hin. unfold peval. simpl. unfold pevals in He. rewrite He. simpl.
   unfold null_check_indices. rewrite Hs.
@@ -186,16 +186,16 @@ Proof.
 Qed.
 
 (* and when no argument is NULL the body decides *)
-Theorem call_no_null t d ctx args vs :
-  pevals ctx args = Ok vs -> Forall (fun v => is_null v = false) vs ->
-  peval ctx (PCall t d args) =
-    match apply_body (body_of d) vs with
+Theorem call_no_null orc t d ctx args vs :
+  pevals orc ctx args = Ok vs -> Forall (fun v => is_null v = false) vs ->
+  peval orc ctx (PCall t d args) =
+    match apply_body (body_of orc d) vs with
     | Ok v => Ok v
     | Err e => if e =? E_NOT_MODELLED then Err E_NOT_MODELLED else Err E_FUNCTION
     | Panic p => Panic p
     end.
 Proof.
-  intros He F. unfold peval. simpl. pose proof (pevals_types_length _ _ _ He) as L.
+  intros He F. unfold peval. simpl. pose proof (pevals_types_length _ _ _ _ He) as L.
   unfold pevals in He. rewrite He. simpl.
   assert (H : null_check vs (null_check_indices d (map ptype args)) = Ok false).
   { unfold null_check_indices. destruct (fd_strict d); [|reflexivity].
@@ -204,10 +204,10 @@ Proof.
 Qed.
 
 (* a non-strict descriptor never gets a null check *)
-Lemma nonstrict_call t d ctx args vs :
-  fd_strict d = false -> pevals ctx args = Ok vs ->
-  peval ctx (PCall t d args) =
-    match apply_body (body_of d) vs with
+Lemma nonstrict_call orc t d ctx args vs :
+  fd_strict d = false -> pevals orc ctx args = Ok vs ->
+  peval orc ctx (PCall t d args) =
+    match apply_body (body_of orc d) vs with
     | Ok v => Ok v
     | Err e => if e =? E_NOT_MODELLED then Err E_NOT_MODELLED else Err E_FUNCTION
     | Panic p => Panic p
@@ -218,51 +218,51 @@ Proof.
 Qed.
 
 (* ---------- NOT ---------- *)
-Theorem not_kleene t d ctx a v :
-  fd_strict d = true -> body_of d = BNot ->
-  peval ctx a = Ok v -> is_tv v = true -> has_type v (ptype a) = true ->
-  peval ctx (PCall t d [a]) = Ok (tv_val (k_not (to_tv v))).
+Theorem not_kleene orc t d ctx a v :
+  fd_strict d = true -> body_of orc d = BNot ->
+  peval orc ctx a = Ok v -> is_tv v = true -> has_type v (ptype a) = true ->
+  peval orc ctx (PCall t d [a]) = Ok (tv_val (k_not (to_tv v))).
 Proof.
   intros Hs Hb He Htv Hty.
-  assert (Hev : pevals ctx [a] = Ok [v]). { unfold pevals. simpl. unfold peval in He. rewrite He. reflexivity. }
+  assert (Hev : pevals orc ctx [a] = Ok [v]). { unfold pevals. simpl. unfold peval in He. rewrite He. reflexivity. }
   destruct v; try discriminate Htv.
-  - rewrite (strict_null t d ctx [a] [VNull] Hs Hev); [reflexivity| |left; reflexivity].
+  - rewrite (strict_null orc t d ctx [a] [VNull] Hs Hev); [reflexivity| |left; reflexivity].
     constructor; [assumption|constructor].
-  - rewrite (call_no_null t d ctx [a] [VBool b] Hev); [|constructor; [reflexivity|constructor]].
+  - rewrite (call_no_null orc t d ctx [a] [VBool b] Hev); [|constructor; [reflexivity|constructor]].
     rewrite Hb. destruct b; reflexivity.
 Qed.
 
 (* ---------- IS NULL / IS NOT NULL ---------- *)
-Theorem is_null_total t d ctx a v :
-  fd_strict d = false -> body_of d = BIsNull -> peval ctx a = Ok v ->
-  peval ctx (PCall t d [a]) = Ok (VBool (is_null v)).
+Theorem is_null_total orc t d ctx a v :
+  fd_strict d = false -> body_of orc d = BIsNull -> peval orc ctx a = Ok v ->
+  peval orc ctx (PCall t d [a]) = Ok (VBool (is_null v)).
 Proof.
   intros Hs Hb He.
-  assert (Hev : pevals ctx [a] = Ok [v]). { unfold pevals. simpl. unfold peval in He. rewrite He. reflexivity. }
-  rewrite (nonstrict_call t d ctx [a] [v] Hs Hev). rewrite Hb. reflexivity.
+  assert (Hev : pevals orc ctx [a] = Ok [v]). { unfold pevals. simpl. unfold peval in He. rewrite He. reflexivity. }
+  rewrite (nonstrict_call orc t d ctx [a] [v] Hs Hev). rewrite Hb. reflexivity.
 Qed.
 
-Theorem is_not_null_total t d ctx a v :
-  fd_strict d = false -> body_of d = BIsNotNull -> peval ctx a = Ok v ->
-  peval ctx (PCall t d [a]) = Ok (VBool (negb (is_null v))).
+Theorem is_not_null_total orc t d ctx a v :
+  fd_strict d = false -> body_of orc d = BIsNotNull -> peval orc ctx a = Ok v ->
+  peval orc ctx (PCall t d [a]) = Ok (VBool (negb (is_null v))).
 Proof.
   intros Hs Hb He.
-  assert (Hev : pevals ctx [a] = Ok [v]). { unfold pevals. simpl. unfold peval in He. rewrite He. reflexivity. }
-  rewrite (nonstrict_call t d ctx [a] [v] Hs Hev). rewrite Hb. reflexivity.
+  assert (Hev : pevals orc ctx [a] = Ok [v]). { unfold pevals. simpl. unfold peval in He. rewrite He. reflexivity. }
+  rewrite (nonstrict_call orc t d ctx [a] [v] Hs Hev). rewrite Hb. reflexivity.
 Qed.
 
 (* ---------- comparisons on non-NULL operands are Boolean ---------- *)
 Definition is_cmp_body (b : body) : bool :=
   match b with BCmp _ | BEq | BNe => true | _ => false end.
 
-Theorem cmp_non_null t d ctx a b x y :
-  is_cmp_body (body_of d) = true ->
-  pevals ctx [a; b] = Ok [x; y] -> is_null x = false -> is_null y = false ->
-  exists r, peval ctx (PCall t d [a; b]) = Ok (VBool r).
+Theorem cmp_non_null orc t d ctx a b x y :
+  is_cmp_body (body_of orc d) = true ->
+  pevals orc ctx [a; b] = Ok [x; y] -> is_null x = false -> is_null y = false ->
+  exists r, peval orc ctx (PCall t d [a; b]) = Ok (VBool r).
 Proof.
   intros Hb He Hx Hy.
-  rewrite (call_no_null t d ctx [a; b] [x; y] He); [|repeat constructor; assumption].
-  destruct (body_of d); try discriminate Hb; simpl; eexists; reflexivity.
+  rewrite (call_no_null orc t d ctx [a; b] [x; y] He); [|repeat constructor; assumption].
+  destruct (body_of orc d); try discriminate Hb; simpl; eexists; reflexivity.
 Qed.
 
 (* ---------- Filter ---------- *)
@@ -298,3 +298,29 @@ Qed.
 (* exactly TRUE: NULL, FALSE and non-Boolean values are dropped *)
 Lemma is_true_spec v : is_true v = true <-> v = VBool true.
 Proof. split; [destruct v; try discriminate; destruct b; try discriminate; reflexivity | intros ->; reflexivity]. Qed.
+
+(* ---------- which body a descriptor has does not depend on the oracle (only an abstract body carries it) ---------- *)
+Lemma body_of_shape orc d :
+  body_of orc d = body_of no_oracle d \/
+  exists ks n, body_of orc d = BAbstract ks n (orc (fd_name d) (fd_idx d)) /\
+               body_of no_oracle d = BAbstract ks n (no_oracle (fd_name d) (fd_idx d)).
+Proof.
+  unfold body_of.
+  repeat match goal with
+         | |- context [if ?c then _ else _] => destruct c; [try (left; reflexivity); right; eexists; eexists; split; reflexivity|]
+         end.
+  left. reflexivity.
+Qed.
+
+Lemma body_of_concrete orc d b :
+  body_of no_oracle d = b -> (forall ks n f, b <> BAbstract ks n f) -> body_of orc d = b.
+Proof.
+  intros H Hn. destruct (body_of_shape orc d) as [E|[ks [n [_ E]]]]; [rewrite E; exact H|].
+  exfalso. rewrite H in E. exact (Hn _ _ _ E).
+Qed.
+
+Lemma body_kinds_orc orc d : body_result_kinds (body_of orc d) = body_result_kinds (body_of no_oracle d).
+Proof. destruct (body_of_shape orc d) as [E|[ks [n [E1 E2]]]]; [rewrite E; reflexivity|rewrite E1, E2; reflexivity]. Qed.
+
+Lemma body_min_args_orc orc d : body_min_args (body_of orc d) = body_min_args (body_of no_oracle d).
+Proof. destruct (body_of_shape orc d) as [E|[ks [n [E1 E2]]]]; [rewrite E; reflexivity|rewrite E1, E2; reflexivity]. Qed.
